@@ -42,7 +42,7 @@ pub open spec fn at2(s: Seq<f64>, ncols: int, i: int, j: int) -> f64 { s[i * nco
 
 pub proof fn lemma_idx(i: int, j: int, nrows: int, ncols: int)
     requires 0 <= i < nrows, 0 <= j < ncols
-    ensures 0 <= i * ncols + j < nrows * ncols, i * ncols + j < (i + 1) * ncols, (i + 1) * ncols <= nrows * ncols
+    ensures 0 <= i * ncols + j < nrows * ncols, i * ncols + j < (i + 1) * ncols, (i + 1) * ncols <= nrows * ncols, 0 <= i * ncols <= i * ncols + j
 {
     assert(i * ncols + j < (i + 1) * ncols) by(nonlinear_arith) requires 0 <= j < ncols;
     assert((i + 1) * ncols <= nrows * ncols) by(nonlinear_arith) requires 0 <= i < nrows, 0 <= ncols;
